@@ -102,6 +102,12 @@ CLAIMED = {
         text="Lean: for every expander, iteration-order function and pair of worlds (seed, history of earlier expansions), if every hashed collection of the source uses the fixed hasher and the source mentions no global state, the emitted tokens depend on the item only (seed_and_history_free); conversely an unfixed site / an impure mention is a real dependency for some expander (unfixed_site_depends, global_state_depends); the regenerated table (22 mentions of HashMap/HashSet in impl/src, each resolved through the file's use items; the aliases' hasher parameter; DeterministicState's build_hasher; statics, thread-locals, clocks, random, env, files, ids) satisfies both (all_sites_fixed, no_global_state: decide +kernel). Tie: identifier-token count of the translator; 276 inputs (30 hand-written ones reaching every iteration site with >= 6 groups, the rest from the other properties' generators) expanded by the working-tree code in 4 fresh processes in different orders and twice in a row, compared byte for byte; thorough: 4000 inputs x 10 processes and rustc -Zunpretty=expanded of the corpus in 3 compiler processes",
         note="partial: Lean kernel for the model + regenerated table; that std's DefaultHasher::default() and syn's Hash impls are process-independent is trusted and observed",
         ref="DESIGN.md §4 C19"),
+    "C20": dict(
+        level="proof",
+        technique="Lean 4 theorem over all feature sets about a cfg-predicate model with a proved-sound implication procedure + kernel-decided closure of the reference table regenerated from both crates and both Cargo.toml by a translator on every run + cargo check / cargo test of the configurations from the working tree (partial: reference extraction is name-based; syn API families and the test programs are decided by cargo only for the configurations run)",
+        text="Lean: the syntactic implication procedure on cfg predicates (DNF of the user side evaluated as a minimal feature set against a negation-free target, split on `std`) is sound for every feature set (implies_sound, by mutual induction: monotonicity, DNF soundness, substitution); every one of the 95 references regenerated from the working tree (module -> gated helper item of utils.rs & co, expansion template -> facade export incl. __private and with_trait, module -> optional dependency via the impl feature table, helper export -> the features needing it, named derive re-export <-> its feature) passes it (all_refs_hold, decide +kernel), hence gating_closed for all 2^27 feature sets, not only singles and pairs; cargo_tables: facade feature f == impl feature f, full == all 24, default == [std]. Tie and search: every crate-internal path must resolve in the item tables; for a failing reference the model computes a witness feature set which is built and tested first. Real builds from the working tree: all 24 single features with and without std through `cargo test --tests` (the repository's own test programs of the enabled derives: 1105 test passes), 24 sampled pairs and 8 impl-only configurations through cargo check; thorough: all 276 pairs x {std, no std}, all impl singles, full",
+        note="partial: Lean kernel for the cfg model + regenerated table; cargo decides the configurations actually built",
+        ref="DESIGN.md §4 C20"),
 }
 
 NOT_APPLICABLE = {}
